@@ -104,7 +104,7 @@ META = dict(
          "discard wraps exactly when a handler over-read and then only waits/reads; DiscardInput reads <= 1 chunk at a time; no input blocks the read loop, so Run returns after close "
          "(C15_run_never_wedged); handleMessage / the whole read loop abort on no input provided the host grants every allocation below the runtime's maxAlloc (C15_no_abort_partial). Exploration, not "
          "theorem: the dependency's decoders, modelled by contract and fuzzed (checksum, length, count, varint, truncation, oversize, extended lengths to 2^64-1, hostile tx/headers) in a child process "
-         "whose exit status is observed; model and implementation agree on every script, including which inputs kill the worker.",
+         "whose exit status is observed; model and implementation agree on every script, including which inputs kill the worker. Several live connections under one real NodeManager (component mgr): hostile bytes on one, the others stay in sync and are served; a stalled peer with a full outgoing queue while the node stops (monitor-only stream mgrstall); block-request scenarios under this monitor; the send / receive locking discipline is regenerated from the source (C15_conn_traces_in_source).",
     note=COMMON_NOTE + "Known finding alloc-declared-count (kernel-checked witness C15_decoder_alloc_witness): wire.ReadVarString / MsgTx.BtcDecode allocate peer-declared counts (<= 2^48) before reading; an 89-byte "
          "version message before the handshake kills the process; not repairable inside /repo. Found and fixed during construction: up-front make([]byte, header.Length) in readMessage, missing recover in "
          "handler goroutines, handshake-channel wedge (Run never returned). 'Other connections unaffected' is exercised by the `mgr` stream (2-8 live connections under one NodeManager, hostile bytes on one of them, then routed requests).",
